@@ -153,7 +153,9 @@ theorem evalX_ctx (E : Env) : ∀ (e : Expr) (ap : Bool) (st : St) r st',
     simp only [evalX, pure_eq_ok] at h
     split at h
     · cases h; rfl
-    · split at h <;> (cases h; rfl)
+    · split at h
+      · cases h; rfl
+      · split at h <;> (cases h; rfl)
   | .unary op e, ap, st, r, st', h => by
     simp only [evalX] at h
     obtain ⟨⟨⟨v, fl⟩, st1⟩, h1, h⟩ := bind_ok h
@@ -1344,7 +1346,10 @@ theorem builtinFunction_none {nm : Bytes} (av : List Val) (h1 : nm ≠ b "range"
   have e2 : (nm == b "length") = false := by simpa using h2
   simp only [builtinFunction, e1, e2, Bool.false_eq_true, if_false]
 
-/-- a macro name that no function-call mechanism claims before the macro lookup of `CallFunction` -/
+/-- a macro name that no function-call mechanism claims before the macro lookup of `CallFunction`.
+    Since `.mcall` consults the visible macros BEFORE `CallFunction` (and `.call` always did), none of
+    the call routes of `evalX` needs this any more; it only remains the hypothesis of
+    `callFunction_macro`, the statement about `CallFunction` itself. -/
 def plainName (E : Env) (nm : Bytes) : Prop :=
   nm ≠ b "parent" ∧ nm ≠ b "range" ∧ nm ≠ b "length" ∧ E.spyFunctions.contains nm = false
 
@@ -1357,15 +1362,15 @@ theorem callFunction_macro {E : Env} {nm : Bytes} {av : List Val} {st : St} {L m
   simp only [callFunction, hmac, Option.isNone_some, Bool.and_false, Bool.false_eq_true, if_false, e1, h4,
     builtinFunction_none av h2 h3, pure_eq_ok]
 
-/-- `obj.name(args)` where `obj` is not a module (e.g. `_self`): the call goes through `CallFunction`
-    and its macro fallback -/
+/-- `obj.name(args)` where `obj` is not a module (e.g. `_self`): a visible macro `name` is found
+    before `CallFunction` is consulted — also when `name` is `range`, `length`, `parent` or a
+    registered function (no `plainName` hypothesis) -/
 theorem route_mcall_function {E : Env} {ap : Bool} {obj : Expr} {nm : Bytes} {args : List Expr} {st st1 : St}
     {o : Val} {fl} {av : List Val} {L m : Bytes}
     (hallow : denied E st.ctx E.allowedFunctions nm = false)
     (hobj : evalX E true obj st = .ok ((o, fl), st))
     (hnomod : ∀ kvs, o ≠ .map kvs)
     (hargs : evalArgs E args st = .ok (av, st1))
-    (hplain : plainName E nm)
     (hmac : st.ctx.getMacro nm = some (L, m)) :
     evalX E ap (.mcall obj nm args) st = .ok ((.callable L m av, []), st1) := by
   have hctx : st1.ctx = st.ctx := evalArgs_ctx E _ _ _ _ hargs
@@ -1373,18 +1378,55 @@ theorem route_mcall_function {E : Env} {ap : Bool} {obj : Expr} {nm : Bytes} {ar
   simp only [evalX, allowedCheck, hallow, Bool.and_false, Bool.false_eq_true, if_false, ok_bind, hobj, hargs]
   cases o with
   | map kvs => exact absurd rfl (hnomod kvs)
-  | _ => simp only [hmac1, ok_bind, pure_eq_ok]
+  | _ => simp only [hmac1, pure_eq_ok]
 
-/-! ### evaluating a name: a variable shadows a macro of the same name -/
+/-! ### evaluating a name: a variable shadows a global, a global shadows a macro of the same name -/
 
 theorem evalVar_of_hasVar {E : Env} {ap : Bool} {n : Bytes} {st : St} (h : st.ctx.hasVar n = true) :
     evalX E ap (.var n) st = .ok ((st.ctx.getVar n, []), st) := by
   simp only [evalX, h, if_true, pure_eq_ok]
 
-theorem evalVar_of_noMacro {E : Env} {ap : Bool} {n : Bytes} {st : St} (h : st.ctx.getMacro n = none) :
+/-- a name no scope of the chain binds reads as the engine global of that name, if there is one -/
+theorem evalVar_of_global {E : Env} {ap : Bool} {n : Bytes} {st : St} {g : Val}
+    (h : st.ctx.hasVar n = false) (hg : getKV n E.globals = some g) :
+    evalX E ap (.var n) st = .ok ((g, []), st) := by
+  simp only [evalX, h, hg, Bool.false_eq_true, if_false, pure_eq_ok]
+
+theorem evalVar_of_noMacro {E : Env} {ap : Bool} {n : Bytes} {st : St}
+    (hg : st.ctx.hasVar n = true ∨ getKV n E.globals = none) (h : st.ctx.getMacro n = none) :
     evalX E ap (.var n) st = .ok ((st.ctx.getVar n, []), st) := by
-  simp only [evalX, h, pure_eq_ok]
-  split <;> rfl
+  rcases hg with hg | hg
+  · exact evalVar_of_hasVar hg
+  · simp only [evalX, h, hg, pure_eq_ok]
+    split <;> rfl
+
+/-- a name evaluates, whatever it is bound to or not: never an error, never a state change, no
+    pending filter chain -/
+theorem evalVar_total (E : Env) (ap : Bool) (n : Bytes) (st : St) :
+    ∃ o, evalX E ap (.var n) st = .ok ((o, []), st) := by
+  simp only [evalX, pure_eq_ok]
+  split
+  · exact ⟨_, rfl⟩
+  · cases getKV n E.globals with
+    | some g => exact ⟨_, rfl⟩
+    | none =>
+      cases st.ctx.getMacro n with
+      | some tm => exact ⟨_, rfl⟩
+      | none => exact ⟨_, rfl⟩
+
+/-- the value of a name is independent of `apply` -/
+theorem evalVar_apply (E : Env) (ap ap' : Bool) (n : Bytes) (st : St) :
+    evalX E ap (.var n) st = evalX E ap' (.var n) st := by
+  simp only [evalX]
+
+/-- a name bound (in the chain) to something that is not a map does not evaluate to a map -/
+theorem evalVar_not_map_of_hasVar {E : Env} {n : Bytes} {st : St} (h : st.ctx.hasVar n = true)
+    (hv : ∀ kvs, st.ctx.getVar n ≠ .map kvs) :
+    ∀ kvs, evalX E true (.var n) st ≠ .ok ((.map kvs, []), st) := by
+  intro kvs hh
+  rw [evalVar_of_hasVar h] at hh
+  simp only [Except.ok.injEq, Prod.mk.injEq, and_true] at hh
+  exact hv kvs hh
 
 theorem scopesVar_ne_null {k : Bytes} : ∀ {ps : List Scope}, scopesVar k ps ≠ .null →
     ps.any (fun s => (getKV k s.vars).isSome) = true
@@ -1404,20 +1446,43 @@ theorem hasVar_of_getVar_ne_null {c : Ctx} {k : Bytes} (h : c.getVar k ≠ .null
   | some v => left; rfl
   | none => rw [hs] at h; right; exact scopesVar_ne_null h
 
-/-- `_self.name(args)`: `_self` is a variable or at least not a macro, and does not hold a module map -/
+/-- an unbound name does not evaluate to a map unless a global of that name holds one (a macro of
+    that name reads as a macro value, nothing reads as null) -/
+theorem evalVar_not_map_of_unbound {E : Env} {n : Bytes} {st : St} (h : st.ctx.hasVar n = false)
+    (hg : ∀ kvs, getKV n E.globals ≠ some (.map kvs)) :
+    ∀ kvs, evalX E true (.var n) st ≠ .ok ((.map kvs, []), st) := by
+  intro kvs hh
+  simp only [evalX, h, Bool.false_eq_true, if_false, pure_eq_ok] at hh
+  cases hG : getKV n E.globals with
+  | some g =>
+    rw [hG] at hh
+    simp only [Except.ok.injEq, Prod.mk.injEq, and_true] at hh
+    exact hg kvs (by rw [hG, hh])
+  | none =>
+    rw [hG] at hh
+    have hnull : st.ctx.getVar n = .null := by
+      cases hn : st.ctx.getVar n with
+      | null => rfl
+      | _ => exact absurd (hasVar_of_getVar_ne_null (by rw [hn]; exact fun h => by cases h)) (by rw [h]; exact Bool.false_ne_true)
+    rw [hnull] at hh
+    cases hM : st.ctx.getMacro n with
+    | some tm => rw [hM] at hh; cases hh
+    | none => rw [hM] at hh; cases hh
+
+/-- `_self.name(args)`: whatever the name `_self` evaluates to (a context variable, else an engine
+    global, else a macro value, else null) is not a module map; then the visible macro `name` is
+    called — whatever `name` is (also `range`, `length`, `parent`, a registered function) -/
 theorem route_self {E : Env} {ap : Bool} {nm : Bytes} {args : List Expr} {st st1 : St}
     {av : List Val} {L m : Bytes}
     (hallow : denied E st.ctx E.allowedFunctions nm = false)
-    (hself : st.ctx.hasVar (b "_self") = true ∨ st.ctx.getMacro (b "_self") = none)
-    (hselfv : ∀ kvs, st.ctx.getVar (b "_self") ≠ .map kvs)
+    (hself : ∀ kvs, evalX E true (.var (b "_self")) st ≠ .ok ((.map kvs, []), st))
     (hargs : evalArgs E args st = .ok (av, st1))
-    (hplain : plainName E nm)
     (hmac : st.ctx.getMacro nm = some (L, m)) :
     evalX E ap (.mcall (.var (b "_self")) nm args) st = .ok ((.callable L m av, []), st1) := by
-  refine route_mcall_function (o := st.ctx.getVar (b "_self")) (fl := []) hallow ?_ hselfv hargs hplain hmac
-  rcases hself with h | h
-  · exact evalVar_of_hasVar h
-  · exact evalVar_of_noMacro h
+  obtain ⟨o, ho⟩ := evalVar_total E true (b "_self") st
+  refine route_mcall_function (o := o) (fl := []) hallow ho ?_ hargs hmac
+  intro kvs hk
+  exact hself kvs (by rw [ho, hk])
 
 /-- `lib.name(args)` where the variable `lib` holds a module map (made by `import … as lib`); a macro
     that happens to be called `lib` too does not matter: the variable shadows it -/
